@@ -56,6 +56,7 @@ pub fn register_helpers(e: &mut Engine) {
     // progress mark: survives the death of the child, so a crash or hang is attributed to one call
     e.register_fn("vf-mark", |t: isize| crate::util::child_mark(&t.to_string()));
     e.register_value("#%verif-stack-depth", steel::verif::stack_depth_builtin());
+    e.register_value("#%verif-heap-stats", steel::verif::heap_stats_builtin());
 }
 
 pub fn enc_result(r: Result<Vec<SteelVal>, steel::SteelErr>, out: String) -> Value {
